@@ -140,6 +140,15 @@ PROPS = {
                            'or failed call; C19_count <= desired-min; C19_k8s_after_cloud / C19_scan_batches: Node deletions only after the whole batch was accepted, for both batches of a scan; C19_not_member_*: the error ends the scan and makes RunOnce fatal. '
                            'Tie: awsops (provider level) and hist (controller level) + monitors.',
                 level_note=LEVEL_NOTE),
+    'C12': dict(level='proof', module='EscProofs.P.C12', streams=hist('C12', focus='multi'),
+                aspects=['journal', 'reccount', 'outcome'], monitors=['C12'],
+                theorems=['Esc.P.C12_targets', 'Esc.P.C12_frame', 'Esc.P.C12_containment', 'Esc.P.C12_fatal_kinds', 'Esc.P.scanGroup_gid'],
+                technique='Lean 4 theorem (targets from the journal anatomy; frame lemma for the per-group loop by induction over the configured groups; containment by case analysis of the loop) + differential correspondence on per-group journals with 2-3 groups + monitor',
+                level_text='C12_targets: every call of a group scan targets a node listed for that group, an instance of its cached cloud group, or that cloud group; C12_frame: a group\'s record is the scan of its own configuration, state, cloud group and view '
+                           'as they stood before the loop, whatever the other groups (other names, other cloud groups) contain or do and wherever it stands in the order — other groups enter only through the index at which the environment is consulted; '
+                           'C12_containment / C12_fatal_kinds: a run that is not fatal processed every group, and the loop is fatal only for not-in-group, fleet-strikes or a missing cloud group. '
+                           'Tie: hist with 2-3 groups incl. `default`, nodes registered in another group\'s ASG; per-group journals compared; targets monitored on observed journals. Evaluation only from own pods/nodes: C14_view.',
+                level_note=LEVEL_NOTE, assumptions=['node-group names are distinct and distinct groups use distinct cloud groups (documented configuration requirement)']),
     'C13': dict(level='proof', module='EscProofs.P.C13',
                 streams=dict(quick=[('resources', ['-n', 3000]), ('arith', ['-n', 20000])],
                              thorough=[('resources', ['-n', 200000]), ('arith', ['-n', 1000000])],
